@@ -85,7 +85,7 @@ FifoOk == LET Y == Peer(E.side) IN
   wire[Y] # <<>> /\ Head(wire[Y]).t = E.t /\ Head(wire[Y]).n = E.n /\ Head(wire[Y]).code = E.code
 
 Event ==
-  /\ l <= N /\ l' = l + 1 /\ tid' = tid /\ UNCHANGED par
+  /\ l <= N /\ l' = l + 1 /\ tid' = tid /\ UNCHANGED <<par, hb>>
   /\ CASE E.ev = "call" -> Call [] E.ev = "emit" -> Emitted [] E.ev = "read" -> Read [] E.ev = "ret" -> Ret
        [] E.ev = "deliver" -> Dispatch [] E.ev = "done" -> Done [] E.ev = "lost" -> LostEv
   /\ bad' = Failed(Clauses \ AtRestOnly)'
@@ -95,7 +95,7 @@ Event ==
 WaitingAt(t) == IF \E i \in 1..Len(F.waiting) : F.waiting[i].th = t
                 THEN (CHOOSE i \in 1..Len(F.waiting) : F.waiting[i].th = t) ELSE 0
 Final ==          \* the schedule has ended: take the channel attributes from the snapshot and judge the state at rest
-  /\ l = N + 1 /\ l' = l + 1 /\ tid' = tid /\ UNCHANGED par
+  /\ l = N + 1 /\ l' = l + 1 /\ tid' = tid /\ UNCHANGED <<par, hb>>
   /\ outwin' = [X \in Sides |-> F.sides[X].outwin] /\ sofar' = [X \in Sides |-> F.sides[X].sofar]
   /\ buf' = [X \in Sides |-> [out |-> F.sides[X].out, err |-> F.sides[X].err]]
   /\ eofSent' = [X \in Sides |-> F.sides[X].eofSent] /\ eofRecv' = [X \in Sides |-> F.sides[X].eofRecv]
